@@ -131,7 +131,11 @@ func (o *Once) Do(f func()) {
 	o.mu.Lock()
 	defer o.mu.Unlock()
 	if !o.done {
-		defer func() { o.done = true }()
+		defer func() {
+			o.done = true
+			// a Once that outlives this execution (package level) must not leak its state
+			sched.AtExecEnd(func() { o.done = false; o.o = sync.Once{} })
+		}()
 		f()
 	}
 }
@@ -184,6 +188,9 @@ func (p *Pool) Get() any {
 
 func (p *Pool) Put(x any) {
 	if sched.Cur() != nil {
+		if len(p.items) == 0 {
+			sched.AtExecEnd(func() { p.items = nil })
+		}
 		p.items = append(p.items, x)
 		return
 	}
